@@ -543,6 +543,13 @@ func (c *client) receive(r io.Reader) (err error) {
 	if header.CellBlockMeta != nil {
 		cellsLen = header.CellBlockMeta.GetLength()
 	}
+	if m, ok := rpc.(*multi); ok {
+		// the results are dispatched by index, make sure the indices make sense
+		if err = m.checkResponse(response); err != nil {
+			err = RetryableError{fmt.Errorf("failed to decode the response: %s", err)}
+			return
+		}
+	}
 	if d, ok := rpc.(canDeserializeCellBlocks); cellsLen > 0 && ok {
 		if uint64(headerLen)+uint64(responseLen)+uint64(cellsLen) > uint64(size) {
 			err = RetryableError{fmt.Errorf(
